@@ -1,0 +1,67 @@
+//go:build verif
+
+package dxil
+
+import (
+	"fmt"
+
+	"github.com/gogpu/naga/dxil/internal/passes/dce"
+	"github.com/gogpu/naga/dxil/internal/passes/mem2reg"
+	"github.com/gogpu/naga/dxil/internal/passes/sroa"
+	"github.com/gogpu/naga/ir"
+)
+
+// VerifPrepare exposes prepareModule (clone + helper inlining), the first
+// step of Compile, to the verification harness.  Only built with -tags verif.
+func VerifPrepare(m *ir.Module) (*ir.Module, error) {
+	return prepareModule(m)
+}
+
+// VerifOptimize runs the pre-emission optimisation passes on m in place, in
+// the same order and over the same functions as runOptPasses:
+// stage "sroa", "mem2reg" or "dce" runs that single pass, "all" runs the
+// three of them exactly as runOptPasses does.
+func VerifOptimize(m *ir.Module, stage string) error {
+	runSROA := func() {
+		for i := range m.EntryPoints {
+			sroa.Run(m, &m.EntryPoints[i].Function)
+		}
+		for i := range m.Functions {
+			sroa.Run(m, &m.Functions[i])
+		}
+	}
+	runMem2Reg := func() error {
+		for i := range m.EntryPoints {
+			if err := mem2reg.Run(m, &m.EntryPoints[i].Function); err != nil {
+				return fmt.Errorf("dxil: mem2reg: %w", err)
+			}
+		}
+		for i := range m.Functions {
+			if err := mem2reg.Run(m, &m.Functions[i]); err != nil {
+				return fmt.Errorf("dxil: mem2reg: %w", err)
+			}
+		}
+		return nil
+	}
+	runDCE := func() {
+		for i := range m.EntryPoints {
+			dce.Run(m, &m.EntryPoints[i].Function)
+		}
+		for i := range m.Functions {
+			dce.Run(m, &m.Functions[i])
+		}
+	}
+	switch stage {
+	case "sroa":
+		runSROA()
+		return nil
+	case "mem2reg":
+		return runMem2Reg()
+	case "dce":
+		runDCE()
+		return nil
+	case "all":
+		return runOptPasses(m)
+	}
+	return fmt.Errorf("dxil: unknown verif stage %q", stage)
+}
